@@ -26,6 +26,7 @@ Trig(tv) == IF tv.g \in {"ptr", "iface"} THEN (IF tv.nil THEN {} ELSE Trig(tv.a[
             ELSE IF tv.g = "map" THEN
                  (IF \E i \in 1..Len(tv.a) : IsNilPtr(tv.a[i]) THEN {"nil-pointer-in-map"} ELSE {}) \cup UNION {Trig(tv.a[i]) : i \in 1..Len(tv.a)}
             ELSE IF tv.g = "struct" THEN
+                 (IF "cyc" \in DOMAIN tv THEN {"embedded-pointer-cycle"} ELSE {}) \cup
                  UNION {IF ~tv.f[i].exp THEN {}
                         ELSE (IF tv.f[i].emb /\ IsNilPtr(tv.f[i].v) THEN {"nil-embedded-pointer"} ELSE {})
                              \cup (IF tv.f[i].v.g = "int" /\ tv.f[i].v.name # "" THEN {"named-scalar"} ELSE {})
@@ -34,7 +35,7 @@ Trig(tv) == IF tv.g \in {"ptr", "iface"} THEN (IF tv.nil THEN {} ELSE Trig(tv.a[
                              \cup Trig(tv.f[i].v) : i \in 1..Len(tv.f)}
             ELSE {}
 Trigger(tv) == LET s == Trig(tv) IN
-               IF "nil-embedded-pointer" \in s THEN "nil-embedded-pointer" ELSE IF "nil-pointer-in-slice" \in s THEN "nil-pointer-in-slice"
+               IF "embedded-pointer-cycle" \in s THEN "embedded-pointer-cycle" ELSE IF "nil-embedded-pointer" \in s THEN "nil-embedded-pointer" ELSE IF "nil-pointer-in-slice" \in s THEN "nil-pointer-in-slice"
                ELSE IF "nil-pointer-in-map" \in s THEN "nil-pointer-in-map" ELSE IF "named-scalar" \in s THEN "named-scalar"
                ELSE IF "custom" \in s THEN "custom" ELSE IF "time-field" \in s THEN "time-field" ELSE "-"
 
